@@ -50,7 +50,7 @@ func init() {
 		ruleMemberLoops(inPkgs("orb."), 17, 0),
 		ruleBoxPredicates(orbBoundPredicates),
 		ruleEqualSameKind,
-		ruleCompose(concatSpecs(reverseSpecs, cloneSpecs, boundSpecs), 100),
+		ruleCompose(concatSpecs(reverseSpecs, cloneSpecs, boundSpecs, shoelaceSpecs("orientation")), 108),
 	)
 
 	register("C01",
@@ -148,7 +148,8 @@ func init() {
 		ruleMemberLoops(inPkgs("planar.", "internal/length."), 14, 5),
 		ruleShapeFaults(shapeConfig{label: "planar measures", keep: and(inPkgs("planar.", "internal/length."), func(k string) bool { return !strings.Contains(k, "Contains") }), floor: 6}),
 		ruleRunOnce(inPkgs("planar.", "internal/length."), 20),
-		ruleCompose(concatSpecs(planarMeasureSpecs, planarLengthSpecs, lowerCentroidSpecs), 100),
+		ruleCompose(concatSpecs(planarMeasureSpecs, planarLengthSpecs, lowerCentroidSpecs, shoelaceSpecs("area"), segmentDistanceSpecs), 114),
+		ruleNoWrite("planar measures", planarObservers, 5, 0), // a measure that wrote its argument (or memory behind it) would change the next one
 	)
 
 	register("C13",
@@ -182,6 +183,7 @@ func init() {
 		ruleBoxPredicates(append(append([]boxSpec(nil), quadtreeBoxPredicates...), orbBoundPredicates[1])),
 		ruleQuadtreeTables,
 		ruleCompose(quadtreeSpecs, 20),
+		ruleNoWrite("quadtree queries", quadtreeQueries, 6, 20), // a query that changed the tree would change later answers
 	)
 
 	register("C12",
@@ -424,6 +426,17 @@ func observerEntries(c *Ctx) []effectEntry {
 	// 0-d / 1-d clipping is documented as returning new geometry ("MultiPoint returns a new set"; only
 	// 1-d/2-d input is scratch space for clip.Geometry): read-only on their argument, see C07
 	out = append(out, lineClipEntries(c)...)
+	return out
+}
+
+// planarObservers: the generic measuring entries of package planar.
+func planarObservers(c *Ctx) []effectEntry {
+	var out []effectEntry
+	for _, e := range observerEntries(c) {
+		if strings.HasPrefix(e.key, "planar.") {
+			out = append(out, e)
+		}
+	}
 	return out
 }
 
